@@ -76,6 +76,10 @@ def correspondence(ctx, violations, known_hits):
         progs.append((feat, "lea r0 m\npush r0\npop r1\nadd r0 r1 #0\nputs\ncall f\nhalt\nf ld r0 c\nout\nrets\nc .fill x21\nm .stringz \"ok\"\n", b""))
         progs.append((feat, ".orig x4000\nand r2 r2 #0\nadd r2 r2 #3\nl push r2\nadd r2 r2 #-1\nbrp l\npop r0\nputn\npop r0\nputn\npop r0\nputn\nhalt\n", b""))
         progs.append((feat, "add r0 r0 #1\n.fill xD040\nputn\nhalt\n", b""))      # a raw 0xD word (PUSH r1) reached at run time
+    # console input that runs out: GETC / IN at the end of the real stdin (the in-process runs inject input below the reader)
+    for text in ("getc\nout\ngetc\nout\nhalt\n", "in\nhalt\n", "getc\nin\ngetc\nhalt\n", "lea r0 m\nputs\ngetc\nout\nhalt\nm .stringz \"?\"\n"):
+        for inp in (b"", b"A", b"AB", b"\xe9"):
+            progs.append((0, text, inp))
     fuel = 20000
     model_obj = ctx.run_model([obj_case(f, t) for f, t, _ in progs], tag="obj")
     model_src = ctx.run_model([src_case(f, fuel, t, inp) for f, t, inp in progs], tag="src")
